@@ -41,21 +41,21 @@ CHECKS = {
  },
  "C17": {
   "category": "fault_enumeration",
-  "text": "Seeded simulation of the real SmtLibSolver (and the factory shortcuts) over simulated pipes against a strict reference SMT-LIB solver that records every protocol breach. Fault-free family: tape-chosen read chunking (short reads inside replies), latencies in virtual time, model choice; oracles = legal stream, push/pop mirrored, replies in sync (no unread output, no misattribution, no blocking with the solver idle), verdict = brute-force truth, values/models = the solver's model. Fault family: one injected peer/pipe fault per run (unknown, (error ...), death before/after a reply, death at start-up, EIO, stall); a call may raise or block but may never return wrong data. Sampling, not proof.",
+  "text": "Seeded simulation of the real SmtLibSolver (and the factory shortcuts) over simulated pipes against a strict reference SMT-LIB solver that records every protocol breach. Fault-free family: tape-chosen read chunking (short reads inside replies), latencies in virtual time, model choice; oracles = legal stream, push/pop mirrored, replies in sync (no unread output, no misattribution, no blocking with the solver idle), verdict = brute-force truth, values/models = the solver's model. Fault family: one injected peer/pipe fault per run (unknown, (error ...), death before/after a reply, death at start-up, EIO, stall); a call may raise or block but may never return wrong data; after a one-shot (error ...) reply (the solver refused one command and is alive) the history continues under the full oracle and nothing further is tolerated. Replies may span several lines. Sampling, not proof.",
   "design_ref": "DESIGN.md section 4 (C17)",
   "note": "Trusted: the reference solver's reading of SMT-LIB 2.6 (dsim/refsolver.py, dsim/sexpr.py; calibrated by hand against cvc5 1.0 and z3 4.8 - reset-assertions drops declarations as in cvc5), the blueprint evaluator, the pipe model (writes <= PIPE_BUF atomic; writes after the child's own (exit) are discarded). Known finding F6 (reset_assertions keeps declared symbols) is recorded in known_findings.json and reported as KNOWN-FINDING.",
   "technique": "deterministic simulation with fault injection: simulated subprocess pipes + virtual clock, strict reference peer, seeded histories/chunking/faults, minimisation + exact replay",
  },
  "C19": {
   "category": "fault_enumeration",
-  "text": "The real Portfolio, _run_solver and one real SmtLibSolver per member run as tasks of a deterministic kernel (baton-passing threads, virtual clock) over simulated Queue/Pipe/Process and simulated solver binaries. The tape decides every interleaving at IPC / process-control / pipe-I/O points, queue feeder delays, exact ties and near-ties of member completion times, each member's model, and per-solve member faults (unknown, error reply, death before answering, death at start-up, stall) for any subset of members including all. Oracles: verdict = brute-force truth whenever a member can answer; model / joint values satisfy the assertions; no spurious exception; bounded liveness (deadlock or budget exhaustion with no stalled member is 'blocks forever'). Sampling, not proof.",
+  "text": "The real Portfolio, _run_solver and one real SmtLibSolver per member run as tasks of a deterministic kernel (baton-passing threads, virtual clock) over simulated Queue/Pipe/Process and simulated solver binaries. The tape decides every interleaving at IPC / process-control / pipe-I/O points, queue feeder delays, exact ties and near-ties of member completion times, each member's model, slow process start-up (members listed early report before later ones exist), member-specific options, and per-solve member faults (unknown, error reply, death before answering, death at start-up, stall, death right after answering) for any subset of members including all. Oracles: verdict = brute-force truth whenever a member can answer; model / joint values satisfy the assertions; no spurious exception; bounded liveness (deadlock or budget exhaustion with no stalled member is 'blocks forever'). Sampling, not proof.",
   "design_ref": "DESIGN.md section 4 (C19)",
-  "note": "Trusted: kernel and IPC model (dsim/kernel.py, dsim/mp.py: synchronous terminate, fork-style descriptor inheritance, asynchronous Queue.put lost on kill), reference solver, blueprint evaluator. Children share the parent's Environment (no copy-on-write isolation). No wrong-answer fault and no winner-fails-after-answering fault: the statement promises nothing there.",
+  "note": "Trusted: kernel and IPC model (dsim/kernel.py, dsim/mp.py: synchronous terminate, fork-style descriptor inheritance, asynchronous Queue.put lost on kill), reference solver, blueprint evaluator. Children share the parent's Environment (no copy-on-write isolation). No wrong-answer fault; when the winner dies after answering, a later request may raise but must not block or return wrong data.",
   "technique": "deterministic simulation with fault injection: seeded scheduler over simulated processes/queues/pipes, virtual time, member crash/unknown/stall faults, minimisation + exact replay",
  },
  "C14": {
   "category": "exploration",
-  "text": "Seeded simulation of 2-4 logical clients sharing one Environment: their scripts of public-API calls (construction, typing, simplify, substitute MGS/MSS with several maps, analyses, logic detection, size with each measure, HR/SMT-LIB printing and parsing, nnf/cnf/prenex/aig, Boolean qelim, FreshSymbol, EagerModel) over a pool of formulas sharing sub-DAGs are interleaved by the tape at API-call granularity. Sequential specification: every result equals, modulo AC order / array-assignment order / fresh names, the result of the same call alone in a brand-new Environment; repeating a call without fresh symbols returns the identical object. Sampling, not proof.",
+  "text": "Seeded simulation of 2-4 logical clients sharing one Environment: their scripts of public-API calls (construction, typing, simplify, substitute MGS/MSS with several maps, analyses, logic detection, size with each measure, HR/SMT-LIB printing and parsing, nnf/cnf/prenex/aig, Boolean qelim, FreshSymbol, EagerModel, long-lived parser / model / substitution-dict objects, factory queries around add_generic_solver) over a pool of formulas sharing sub-DAGs are interleaved by the tape at API-call granularity. Sequential specification: every result equals, modulo AC order / array-assignment order / fresh names, the result of the same call alone in a brand-new Environment; repeating a call without fresh symbols returns the identical object. Sampling, not proof.",
   "design_ref": "DESIGN.md section 4 (C14)",
   "note": "Trusted: the canonical key (dsim/canon.py) as the allowed equality; printed text is compared after re-parsing (SMT-LIB) or as a token multiset (HR), which is looser than textual equality. User symbols whose names a fresh-name template could produce are declared first in both environments.",
   "technique": "deterministic simulation: tape-scheduled interleaving of client call scripts on shared mutable state, fresh-environment reference per call, minimisation + exact replay",
